@@ -163,3 +163,10 @@ func VerifPoisonParser(p *Parser, field string) bool {
 func VerifPoisonPrinter(p *Printer, field string) bool {
 	return verifPoisonField(p, field)
 }
+
+// VerifInteractiveState exposes what wrappedReader.Read and InteractiveSeq look at:
+// whether the current rune is a (possibly escaped) newline, the current line,
+// whether the current token is a newline token, and Parser.Incomplete().
+func VerifInteractiveState(p *Parser) (runeIsNewline bool, line int64, tokIsNewl bool, incomplete bool) {
+	return p.r == '\n' || p.r == escNewl, p.line, p.tok == _Newl, p.Incomplete()
+}
